@@ -68,3 +68,13 @@ Theorem C14_T4_dispatch_code_is_model bl tbl now host v th b stale :
 Proof. exact (internalProcessPacket_code_is_model bl tbl now host v th b stale). Qed.
 Print Assumptions C14_T4_dispatch_code_is_model.
 
+(* T5: the packet record on the current source. runPacketCallBack() regenerated as a statement tree and interpreted is the model's
+   run_pkt_cb: a record is made only when a packet callback is registered; it carries the time and flags it was called with, the next
+   packet number - consumed only then, MSOP and DIFOP packets alike, wrapping at 2^32 - and a copy of exactly the packet's bytes; the
+   callback sees no field that was not set *)
+Theorem C14_T5_record_code_is_model data ts is_difop begin_ v :
+  exists m, rrun data ts is_difop begin_ LidarDriverImpl_runPacketCallBack_effects (mk_rm v [] None None None None false None None) = Go m /\
+            (r_v m, r_out m) = run_pkt_cb v data ts is_difop begin_.
+Proof. exact (runPacketCallBack_code_is_model data ts is_difop begin_ v). Qed.
+Print Assumptions C14_T5_record_code_is_model.
+
